@@ -70,13 +70,18 @@ Definition V_VIOLATION : N := 4.   (* impl <> model, impl <> spec, not known    
 Definition V_STALE_KNOWN : N := 5. (* impl <> model, impl <> spec, known class    *)
 
 (* [known] = 0: the case lies in no known-finding class; k > 0: class k.
-   Known classes are reported as 100+k (impl = model) or 500+k (impl <> model). *)
+   Known classes are reported as 100+k (impl = model) or 500+k (impl <> model).
+   A known class never excuses an implementation answer that differs from the
+   specification on an input where today's MODEL agrees with the specification
+   (the class is decided from the input; the defect it records does not show on
+   such an input), so that case is a violation whatever [known] says. *)
 Definition verdict (impl_eq_model model_eq_spec impl_eq_spec : bool) (known : N) : N :=
   if impl_eq_model then
     (if model_eq_spec then V_OK
      else if N.eqb known 0 then V_THEOREM_GAP else (100 + known)%N)
   else
     (if impl_eq_spec then V_STALE_OK
+     else if model_eq_spec then V_VIOLATION
      else if N.eqb known 0 then V_VIOLATION else (500 + known)%N).
 
 Fixpoint forallb2 {A B} (f : A -> B -> bool) (l1 : list A) (l2 : list B) : bool :=
